@@ -111,7 +111,19 @@ def values_for(keys, variant=0):
     return [0.5 + i + 10.0 * variant for i, _k in enumerate(keys)]
 
 
-def run_cached(kind, keys, cache_dir, *, parallel=False, max_workers=2, variant=0, raw=None):
+def _json_name(k):
+    return f"key-{k!r}.json".replace("'", "_")
+
+
+def _json_load(file):
+    return json.loads(Path(file).read_text())
+
+
+def _json_save(file, data):
+    Path(file).write_text(json.dumps(data))
+
+
+def run_cached(kind, keys, cache_dir, *, parallel=False, max_workers=2, variant=0, raw=None, flavor="pickle"):
     """One run of the real caching entry point. Returns {repr(key): comparable result}.
 
     variant: which computation is cached (0/1: another function / another model under the same keys);
@@ -123,6 +135,8 @@ def run_cached(kind, keys, cache_dir, *, parallel=False, max_workers=2, variant=
     from mxlpy.parallel import Cache, parallelise
 
     cache = None if cache_dir is None else Cache(tmp_dir=Path(cache_dir))
+    if cache is not None and flavor == "json":  # a user-supplied naming / storage scheme
+        cache = Cache(tmp_dir=Path(cache_dir), name_fn=_json_name, load_fn=_json_load, save_fn=_json_save)
     if kind in ("dict", "frame"):
         fn = _fn_dict if kind == "dict" else _fn_frame
         res = parallelise(fn, list(zip(keys, values_for(keys, variant), strict=True)), cache=cache, parallel=parallel, max_workers=max_workers)
@@ -212,6 +226,7 @@ def check_history(case):
     base = fresh_dir(f"hist-{sha12(case)}")
     cache_dir, calls_dir = base / "cache", base / "calls"
     calls_dir.mkdir()
+    flavor = case.get("flavor", "pickle")
     refs = {v: run_cached(kind, keys, None, variant=v) for v in (0, 1)}
     disk = {}
     last_raw = {}
@@ -224,7 +239,7 @@ def check_history(case):
             elif op == "drop-first":
                 from mxlpy.parallel import _pickle_name
 
-                f = cache_dir / _pickle_name(keys[0])
+                f = cache_dir / (_json_name(keys[0]) if flavor == "json" else _pickle_name(keys[0]))
                 if f.exists():
                     f.unlink()
                 disk.pop(repr(keys[0]), None)
@@ -253,7 +268,7 @@ def check_history(case):
                 before = count_calls(calls_dir)
                 last_raw = {}
                 try:
-                    got = run_cached(kind, ks, cache_dir, variant=variant, raw=last_raw)
+                    got = run_cached(kind, ks, cache_dir, variant=variant, raw=last_raw, flavor=flavor)
                 except Exception as exc:  # noqa: BLE001
                     return outcome(False, "run-raised", symptom=f"history-run-raised:{type(exc).__name__}", nontrivial=True,
                                    detail=f"step {step} ({op}) raised {type(exc).__name__}: {str(exc)[:150]} | {txt}")
@@ -488,6 +503,15 @@ def generate(tier):
             for pre in it.product(HIST_OPS, repeat=n - 1):
                 for last in runs:
                     cases.append({"mode": "history", "kind": kind, "keys": KEYSETS[ks], "hist": [*pre, last]})
+    # the same histories with a user-supplied naming / storage scheme (JSON files named after repr(key)), on the key
+    # set whose str() values coincide: with these functions the keys are distinct files
+    for n in range(1, depth):
+        for pre in it.product(HIST_OPS, repeat=n - 1):
+            for last in runs:
+                cases.append({"mode": "history", "kind": "dict", "keys": KEYSETS["collide"] + [2.5], "hist": [*pre, last], "flavor": "json"})
+    # many keys
+    cases.append({"mode": "history", "kind": "dict", "keys": list(range(40)), "hist": ["runA", "drop-first", "runA-subset", "runB", "runA"]})
+    cases.append({"mode": "history", "kind": "frame", "keys": [f"k{i}" for i in range(25)], "hist": ["runA-subset", "runB", "edit-returned", "runA"]})
     # fault-model validation with a real SIGKILL
     ev = clean_events("dict", KEYSETS["ints"], tag="gen-kill")
     writes = [i for i, e in enumerate(ev) if e[0] == "write"]
